@@ -1,6 +1,8 @@
 (* Extraction of the C05 models: ExtrOcamlBasic only. *)
 From Coq Require Import ZArith List.
-From PV Require Import Base.U64 E3.E3_Run C05.C05_Asym C05.C05_Model.
+From PV Require Import Base.U64 E3.E3_Run C05.C05_Asym C05.C05_Model C05.C05_E4.
 Require Extraction.
 Require Import ExtrOcamlBasic.
-Extraction "c05_model.ml" coop_result asym_e3.
+Extraction "c05_model.ml" coop_result asym_e3
+  (* engine E4 (controlled multi-vCPU replay): the proved step function and the command layer over it *)
+  init_state step cmd_labels f23_class phys_clash getth getvc.
